@@ -121,3 +121,47 @@ package vgirpc
 //@   property C05
 //@   modifies nothing
 //@   ensures result == "MethodNotImplementedError"
+
+// Debug details only when debug errors are enabled, at every place a server path writes an
+// error: each call of writeErrorResponse / writeErrorBatch on the pipe and HTTP dispatch paths
+// passes the server's own debugErrors setting, and none of those paths goes through the exported
+// WriteErrorResponse (the intermediary helper, which always includes the traceback).
+//
+//@ func (*HttpServer).writeHttpError
+//@   property C05
+//@   at call writeErrorResponse assert [debugsetting] arg5 == h.server.debugErrors
+//@   at call WriteErrorResponse assert [hint_nodebugbypass] false
+//@ func (*HttpServer).handleExchangeCall
+//@   property C05
+//@   at call writeErrorBatch assert [debugsetting] arg5 == h.server.debugErrors
+//@   at call WriteErrorResponse assert [hint_nodebugbypass] false
+//@ func (*HttpServer).runProduceLoop
+//@   property C05
+//@   at call writeErrorBatch assert [debugsetting] arg5 == h.server.debugErrors
+//@   at call WriteErrorResponse assert [hint_nodebugbypass] false
+//@ func (*HttpServer).writeExchangeCapError
+//@   property C05
+//@   at call writeErrorBatch assert [debugsetting] arg5 == h.server.debugErrors
+//@   at call WriteErrorResponse assert [hint_nodebugbypass] false
+//@ func (*HttpServer).handleUnary
+//@   property C05
+//@   at call writeErrorBatch assert [debugsetting] arg5 == h.server.debugErrors
+//@   at call WriteErrorResponse assert [hint_nodebugbypass] false
+//@ func (*HttpServer).writeUnaryCapError
+//@   property C05
+//@   at call writeErrorBatch assert [debugsetting] arg5 == h.server.debugErrors
+//@   at call WriteErrorResponse assert [hint_nodebugbypass] false
+//@ func (*Server).serveOne
+//@   property C05
+//@   at call writeErrorResponse assert [debugsetting] arg5 == s.debugErrors
+//@   at call WriteErrorResponse assert [hint_nodebugbypass] false
+//@ func (*Server).serveStream
+//@   property C05
+//@   at call writeErrorResponse assert [debugsetting] arg5 == s.debugErrors
+//@   at call writeErrorBatch assert [debugsetting] arg5 == s.debugErrors
+//@   at call WriteErrorResponse assert [hint_nodebugbypass] false
+//@ func (*Server).serveUnary
+//@   property C05
+//@   at call writeErrorResponse assert [debugsetting] arg5 == s.debugErrors
+//@   at call writeErrorBatch assert [debugsetting] arg5 == s.debugErrors
+//@   at call WriteErrorResponse assert [hint_nodebugbypass] false
